@@ -65,6 +65,9 @@ ASSUMPTIONS = [
     "(e.g. 1 and True), no Value subclasses with their own get_hash (File etc. are C30)",
     "'the same value' = same specification built by the same code in every process, with the elements of every set/frozenset "
     "inserted in a per-run permuted order",
+    "object sharing: only the scheduler-recorded hashes are required to be independent of which equal sub-containers are the same "
+    "object (the scheduler rebuilds arguments and results); a bare get_hash / record_value call sees the memo of pickle (listed "
+    "finding C20-value-key-pickle-aliasing) and is not compared across sharing variants; shared rows have number / None leaves",
     "a value whose hashing raises the same error in every run is not counted as a violation of THIS property (no hash differs); "
     "it is reported in the evidence distribution (none is expected since the TypeError fallback of Set.get_hash)",
 ]
@@ -79,7 +82,10 @@ RULE = ("value specifications generated from one PRNG (scalars, nested list/tupl
         "real RedunBackendDb.record_value(value), and (witnesses, corpus, first generated values) Argument.value_hash and "
         "CallNode.value_hash recorded by a real Scheduler for the call ident(value). Correspondence: pre-image <-> hash must be a "
         "bijection over ALL observed layouts and the first three ways (so the model predicts exactly "
-        "which values are order sensitive). Oracle: all runs of one value must give one hash, for each of the five ways; the ways agree inside one process; look-alikes with "
+        "which values are order sensitive). Same value, different object sharing: lists/tuples holding one row object several times ([row] * n, nested, numbers as "
+        "leaves) go through the real task call next to the equal value built without sharing; the scheduler-recorded hashes "
+        "(Argument.value_hash, CallNode.value_hash, CallNode.args_hash) must be equal. "
+        "Oracle: all runs of one value must give one hash, for each of the five ways; the ways agree inside one process; look-alikes with "
         "different pickles (computed by the harness with plain pickle) never share a hash. distinct = distinct specifications; "
         "non-trivial = contains a set or frozenset")
 LEVEL_TEXT = (
@@ -393,7 +399,7 @@ def run_workers(docs, seeds, modes=None):
             for line in out.split("\n"):
                 if line:
                     cols = line.split("\t")
-                    if len(cols) != 7:
+                    if len(cols) != 8:
                         raise core.Infra("C16 worker: malformed reply " + line[:200])
                     table[cols[0]] = tuple(cols[1:])
             want = len(docs) if mode in ("fwd", "rev") else sum(
@@ -414,16 +420,21 @@ OBSERVABLES = [     # (name, column in the worker row, model request, enters the
     # (map_nested_value), so the recorded layout need not be the printed one: these two only enter the oracle
     ("Argument.value_hash of a task call", 4, "record", False),
     ("CallNode.value_hash (result) of a task call", 5, "record", False),
+    ("CallNode.args_hash of a task call", 6, "record", False),
 ]
+SCHED_COLS = (4, 5, 6)
 
 
-def check_specs(ctx, specs, seeds, nvar, stream_of=None, nsched=0, families=(), modes=None):
+def check_specs(ctx, specs, seeds, nvar, stream_of=None, nsched=0, families=(), modes=None, shared=None):
     """specs: list of specifications.  Every spec x (base order, reversed, nvar-2 shuffles) x every seed is hashed for real;
     the first `nsched` specs additionally go through a real task call."""
     rng = ctx.rng
     docs = []
+    shared = shared or {}
     for i, sp in enumerate(specs):
-        docs.append(("%d.0" % i, sp, i < nsched))
+        docs.append(("%d.0" % i, sp, i < nsched or i in shared))
+        if i in shared:                     # the same value with repeated rows being ONE object: through the scheduler only
+            docs.append(("%d.s" % i, shared[i], True))
         if not features(sp)["sets"]:
             continue                        # no set, no other insertion order
         if nvar > 1:
@@ -442,6 +453,8 @@ def check_specs(ctx, specs, seeds, nvar, stream_of=None, nsched=0, families=(), 
     for sd in seeds:
         for did, row in sorted(res[sd].items()):
             lay = row[0]
+            if did.endswith(".s"):
+                continue                    # a bare get_hash sees object sharing (pickle memo): recorded finding of another family
             for oname, col, req, inbij in OBSERVABLES:
                 if not inbij:
                     continue
@@ -477,6 +490,9 @@ def check_specs(ctx, specs, seeds, nvar, stream_of=None, nsched=0, families=(), 
         sens_any = False
         for oname, col, req, inbij in OBSERVABLES:
             oruns = [r for r in runs if r[2][col] != "-"]
+            base_hashes = {r[2][col] for r in oruns}
+            if col in SCHED_COLS and i in shared:
+                oruns = oruns + [(sd, "%d.s" % i, res[sd]["%d.s" % i]) for sd in seeds if "%d.s" % i in res[sd]]
             hashes = sorted({row[col] for _, _, row in oruns})
             if not hashes:
                 continue
@@ -497,7 +513,11 @@ def check_specs(ctx, specs, seeds, nvar, stream_of=None, nsched=0, families=(), 
             b = next(r for r in oruns if r[2][col] != a[2][col])
             pres = {replies[req][row[0]] for _, _, row in oruns}
             sig = signature(ft)
-            if ft["extras"] and not ft["nested_multi"] and col in (4, 5):
+            if i in shared and len(base_hashes) == 1:
+                # equal values, one built with the repeated rows being the same object: the scheduler rebuilds its arguments and
+                # results, which is what makes the recorded hashes independent of the sharing
+                sig = "C16-recorded-hash-depends-on-object-sharing"
+            elif ft["extras"] and not ft["nested_multi"] and col in SCHED_COLS:
                 # map_nested_value (applied by the scheduler to arguments and results) copies the non-field __dict__ entries
                 # of a dataclass instance in set-iteration order
                 sig = "C16-dataclass-extra-attrs-copied-in-set-order"
@@ -507,7 +527,7 @@ def check_specs(ctx, specs, seeds, nvar, stream_of=None, nsched=0, families=(), 
                 sig = "C16-unstable-where-model-is-stable:" + ("top-level-set" if ft["top"] == "S" else
                                                                ("set-free" if not ft["sets"] else "nested-set"))
             ctx.violation(sig, "%s differs between runs of the same value (PYTHONHASHSEED=%s vs %s)" % (oname, a[0], b[0]),
-                          case={"spec": sp, "observable": oname, "family": fam_of.get(i),
+                          case={"spec": sp, "observable": oname, "family": fam_of.get(i), "shared": shared.get(i),
                                 "run_a": {"seed": a[0], "layout": a[2][0][:300], "hash": a[2][col]},
                                 "run_b": {"seed": b[0], "layout": b[2][0][:300], "hash": b[2][col]}},
                           expected="one hash in all %d runs" % len(oruns), actual=hashes[:6], kind="input")
@@ -558,6 +578,40 @@ def seeds_for(ctx):
     return [0, 1, 2, 3] + extra
 
 
+def unshare(sp):
+    """the equal value built without any sharing: ["R", kind, n, row] -> [kind, [row] * n]"""
+    t = sp[0]
+    if t == "R":
+        return [sp[1], [unshare(sp[3]) for _ in range(sp[2])]]
+    if t in ("L", "U"):
+        return [t, [unshare(x) for x in sp[1]]]
+    return sp
+
+
+def gen_shared(rng):
+    """a list/tuple argument that holds the same list/tuple OBJECT more than once; leaves are numbers / None (pickle does not
+    memoise those, so only the containers can be shared)"""
+    def row(depth):
+        xs = [rng.choice([i_(rng.randrange(-3, 40)), f_(rng.choice([0.5, 1.0, 2.0])), ["N"], ["T"]]) for _ in range(rng.choice([0, 1, 2, 3]))]
+        if depth > 0 and rng.random() < 0.4:
+            xs.insert(rng.randrange(len(xs) + 1), row(depth - 1))
+        return [rng.choice(["L", "L", "U"]), xs]
+
+    sp = ["R", rng.choice(["L", "L", "U"]), rng.choice([2, 3, 4]), row(1)]
+    k = rng.random()
+    if k < 0.3:
+        sp = ["R", rng.choice(["L", "U"]), 2, sp]
+    elif k < 0.6:
+        sp = [rng.choice(["L", "U"]), [i_(7), sp, row(0)]]
+    return sp
+
+
+SHARED = [
+    ["R", "L", 3, ["L", [i_(0), i_(1), i_(2)]]], ["R", "U", 2, ["U", [i_(1), i_(2)]]], ["R", "L", 2, ["L", []]],
+    ["L", [["R", "U", 3, ["L", [i_(5)]]], i_(9)]], ["R", "L", 2, ["R", "L", 2, ["L", [f_(1.5), ["N"]]]]],
+]
+
+
 def modes_for(seeds):
     """the history of each interpreter: order in which it meets the values / which half of them it meets at all"""
     cyc = ["fwd", "rev", "fwd", "rev", "even", "odd", "evenrev", "oddrev", "fwd", "rev", "even", "odd"]
@@ -575,13 +629,17 @@ def run(ctx):
         specs.extend(fam)
         if len(families) == len(FAMILIES):
             nfix = len(specs)
+    shared = {}
+    for sp in SHARED + [gen_shared(ctx.rng) for _ in range(ctx.n(15, 150))]:
+        shared[len(specs)] = sp
+        specs.append(unshare(sp))
     ncorp = len(specs)
     for _ in range(ctx.n(500, 9000)):
         specs.append(g.value(ctx.rng.choice([1, 2, 2, 3, 4])))
     seeds = seeds_for(ctx)
     verdicts = check_specs(ctx, specs, seeds, 3 if ctx.tier == "quick" else 4,
                            stream_of=lambda i: "witness" if i < len(WITNESSES) else ("corpus+lookalikes" if i < ncorp else "generated"),
-                           nsched=nfix + ctx.n(10, 150), families=families, modes=modes_for(seeds))
+                           nsched=nfix + ctx.n(10, 150), families=families, modes=modes_for(seeds), shared=shared)
     # the `_refuted` witnesses must still fail on the implementation (else the model is stale)
     for (name, sp, sig), sens in zip(WITNESSES, verdicts):
         if not sens:
@@ -595,6 +653,7 @@ def replay(ctx, case):
         print("replaying specification:", json.dumps(c["spec"])[:300])
         specs = list(c["family"]) if c.get("family") else [c["spec"]] + ([c["other"]] if "other" in c else [])
         seeds = seeds_for(ctx)
-        check_specs(ctx, specs, seeds, 4, nsched=len(specs), families=[list(range(len(specs)))], modes=modes_for(seeds))
+        check_specs(ctx, specs, seeds, 4, nsched=len(specs), families=[list(range(len(specs)))], modes=modes_for(seeds),
+                    shared={0: c["shared"]} if c.get("shared") and not c.get("family") else None)
     else:
         run(ctx)
